@@ -137,3 +137,26 @@ def from_tail_case(sc, T, thr16, thrn, r):
         d["z64end"] = True
         d["z64_sentinels"] = {(True, True): "all+disks", (True, False): "all", (False, True): "disks", (False, False): "needed"}[(T["sent"], T.get("dsent", False))]
     return scenario(sc, d)[0]
+
+
+def from_producer_case(sc, A):
+    """an archive TLC enumerated in MC_Producer (Producer.tla), as a concrete archive: the structure choices are kept
+    exactly (forced ZIP64 subset, record positions, local ZIP64 record, differing local extra, data-descriptor style,
+    prefix, gap, directory order, duplicate names); sizes are only classes there, so payloads are chosen here"""
+    ents = []
+    for k, c in enumerate(A["ents"]):
+        if c["us"] == 0:
+            method, data = 0, b""
+        elif c["cs"] == c["us"]:
+            method, data = 0, b"stored payload %d" % k
+        else:
+            method, data = 8, b"compressible payload %d " % k * 40
+        f = c["forced"]
+        ents.append({"name": b"n" if A["dup"] else b"n%d" % (k + 1), "method": method, "data": data,
+                     "dd": None if c["dd"] == "none" else c["dd"],
+                     "z64": set(n for m, n in (("us", "usize"), ("cs", "csize"), ("off", "off")) if f[m]),
+                     "z64_last": c["zlast"], "lz64": c["lz64"], "lz64_last": c["lzl"],
+                     "cextra": [(0xcafe, b"ccc")] * c["nother"], "lextra": [(0xcafe, b"lll")] * c["lother"]})
+    d = {"entries": ents, "prefix": b"\x07" * A["prefix"], "gaps": [b"\x01" * g for g in A["gaps"]],
+         "order": [i - 1 for i in A["order"]]}
+    return scenario(sc, d)[0]
